@@ -149,7 +149,7 @@ def main(argv=None):
     nshards = mod.shards(tier) if hasattr(mod, "shards") else 1
     jobs = a.jobs or int(os.environ.get("VERIF_JOBS", "0")) or min(16, os.cpu_count() or 4)
     if nshards > 1:
-        watchdog = getattr(mod, "WATCHDOG", {}).get(tier, 1800 if tier == "quick" else 6 * 3600)
+        watchdog = getattr(mod, "WATCHDOG", {}).get(tier, 700 if tier == "quick" else 6 * 3600)
         run_sharded(mod, run, nshards, jobs, watchdog)
     else:
         run_inproc(mod, run)
